@@ -190,12 +190,18 @@ def pass (cfg : Cfg) (g : Graph) (wlen a b mb : Nat) (mf : Option Nat)
         else .ok ⟨applySwaps (s.saves.take (best + 1)) p1, cut, false⟩
       else .ok ⟨p1, bestCut, true⟩
 
+/-- `if let Some(max_passes) = max_passes { if iter >= max_passes { break; } }` -/
+def passLimit (mp : Option Nat) (iter : Nat) : Bool :=
+  match mp with
+  | some m => decide (m ≤ iter)
+  | none => false
+
 /-- The outer loop; `fuel` bounds the number of passes (see `passFuel`). -/
 def passes (cfg : Cfg) (g : Graph) (wlen a b mb : Nat) (mp mf : Option Nat) :
     Nat → Nat → List Nat → Int → Outcome
   | 0, _, _, _ => .panic .fuel
   | fuel + 1, iter, p, cut =>
-    if (match mp with | some m => decide (m ≤ iter) | none => false) then .ok p
+    if passLimit mp iter then .ok p
     else
       match pass cfg g wlen a b mb mf p cut with
       | .error e => .panic e
